@@ -325,6 +325,30 @@ func genL2(r *rng.R, g *qgen.G, seeds []string) (*l2Case, bool) {
 		c.Args = append(c.Args, arg)
 	}
 	c.Clean = append([]any{}, c.Args...)
+	if r.Chance(1, 8) || (focusBulk && r.Chance(1, 4)) {
+		// one of several bulk arguments cut to a single element (a slice of maps first): slices
+		// of different lengths are rejected, a slice of one element is still a slice
+		var bulk []int
+		for i, a := range c.Args {
+			if a == nil {
+				continue
+			}
+			if v := reflect.ValueOf(a); v.Kind() == reflect.Slice && v.Type().Name() == "" && v.Len() >= 2 {
+				bulk = append(bulk, i)
+			}
+		}
+		if len(bulk) >= 2 {
+			pick := bulk[r.Intn(len(bulk))]
+			for _, i := range bulk {
+				et := reflect.TypeOf(c.Args[i]).Elem()
+				if et.Kind() == reflect.Map || (et.Kind() == reflect.Pointer && et.Elem().Kind() == reflect.Map) {
+					pick = i
+				}
+			}
+			c.Args[pick] = reflect.ValueOf(c.Args[pick]).Slice(0, 1).Interface()
+			c.Note = append(c.Note, "bulk-cut-to-one")
+		}
+	}
 	if r.Chance(1, 12) || (focusBulk && r.Chance(1, 4)) {
 		// both slice forms of one type, []T and []*T, filled with different values: the
 		// statement must use []T for every column and reject the unused []*T
@@ -796,6 +820,45 @@ func runL2After(c *l2Case, first []any) (res *l2Run) {
 	}
 	res.bindOk = true
 	return res
+}
+
+// swapLengths exchanges the lengths of two slice arguments of different lengths: the same
+// total number of inputs, split differently over the expressions. nil if there are none.
+func swapLengths(r *rng.R, args []any) []any {
+	var idx []int
+	for i, a := range args {
+		if a == nil {
+			continue
+		}
+		if v := reflect.ValueOf(a); v.Kind() == reflect.Slice && v.Type().Elem().Kind() != reflect.Uint8 {
+			idx = append(idx, i)
+		}
+	}
+	resize := func(v reflect.Value, n int) any {
+		out := reflect.MakeSlice(v.Type(), n, n)
+		f := &desc.Filler{R: r.Fork(), Keys: []string{"k", "id", "name"}}
+		f.N = r.Intn(1000) * 100
+		for k := 0; k < n; k++ {
+			if k < v.Len() {
+				out.Index(k).Set(v.Index(k))
+			} else {
+				out.Index(k).Set(f.Fill(v.Type().Elem(), 0))
+			}
+		}
+		return out.Interface()
+	}
+	for x := 0; x < len(idx); x++ {
+		for y := x + 1; y < len(idx); y++ {
+			vi, vj := reflect.ValueOf(args[idx[x]]), reflect.ValueOf(args[idx[y]])
+			if vi.Len() != vj.Len() {
+				out := append([]any{}, args...)
+				out[idx[x]] = resize(vi, vj.Len())
+				out[idx[y]] = resize(vj, vi.Len())
+				return out
+			}
+		}
+	}
+	return nil
 }
 
 // refill builds fresh values of the arguments' types (other zero patterns, other lengths).
@@ -1283,6 +1346,18 @@ func runL2(args []string) {
 					if r4.bindOk && !res.bindOk {
 						afterAccepts = detail
 					}
+				}
+				if sw := swapLengths(cr, c.Args); sw != nil && res.bindOk {
+					// ... and after a run with as many inputs in all, split differently
+					r4b := runL2After(c, sw)
+					if r4b.panic == "" && k(r4b) != k(res) {
+						det = false
+						detail = fmt.Sprintf("a Statement that had been run once with the same number of inputs split differently over its expressions gave a different result than a fresh Statement: %v vs %v", r4b.obs(), res.obs())
+						if r4b.sql != res.sql && r4b.mode != "none" && res.mode != "none" {
+							sqlChanged = detail
+						}
+					}
+					hyp["same-total-other-split"]++
 				}
 			}
 			if res.prepOk {
